@@ -44,15 +44,15 @@ def configs(tier):
         ("seed0", 0, 0, False, "plain"),
         ("seed1", 1, 0, False, "plain"),
         ("seed2+alloc", 2, 13, False, "plain"),
-        ("seed3+alloc", 3, 101, False, "plain"),
         ("repeat-shared", 0, 0, True, "twice"),
         ("history-shuffled", 5, 7, True, "shuffled"),
         ("history-reversed", 0, 29, True, "reversed"),
         ("related-shared", 0, 0, True, "related"),    # P right after its related variant H, one Checker
-        ("related-fresh", 6, 0, False, "related"),    # the same with a fresh Checker per check (process-global state)
     ]
     if tier == "thorough":
         cs += [
+            ("seed3+alloc", 3, 101, False, "plain"),
+            ("related-fresh", 6, 0, False, "related"),    # P after its related variant, fresh Checker per check (process-global state)
             ("seed4", 4, 0, False, "plain"),
             ("seed7+alloc", 7, 211, False, "plain"),
             ("seed11", 11, 3, False, "plain"),
@@ -204,7 +204,7 @@ def run(tier: str, replay: str | None = None):
         for i, c in enumerate(json.loads(CORPUS.read_text())["programs"]):
             programs[f"corpus{i}"] = c["source"]
             feats[f"corpus{i}"] = ["corpus:" + c["name"]]
-        n_gen = 36 if tier == "quick" else 300
+        n_gen = 26 if tier == "quick" else 300
         for i in range(n_gen):
             src, fs = gen_c10.gen_program(rng)
             programs[f"gen{i}"] = src
